@@ -123,9 +123,14 @@ impl Check for C18 {
                 let cap = bufcap(&mut io.borrow_mut().ftape);
                 layout21utils::verif::set_bufwriter_capacity(cap);
                 extra ^= cap.unwrap_or(0) as u64;
-                let (w, l) = terminal_write(&mut io.borrow_mut().ftape, text.len() as u64);
-                let r = terminal_read(&mut io.borrow_mut().ftape, text.len() as u64);
-                (w, r, l)
+                // the terminal fault sits either on the save side or on the open side
+                if io.borrow_mut().ftape.chance(1, 2) {
+                    let (w, l) = terminal_write(&mut io.borrow_mut().ftape, text.len() as u64);
+                    (w, Policy::plain(), l)
+                } else {
+                    let r = terminal_read(&mut io.borrow_mut().ftape, text.len() as u64);
+                    (Policy::plain(), r, "")
+                }
             }
         };
         extra ^= policy_digest(&wpol) ^ policy_digest(&rpol).rotate_left(11);
@@ -138,7 +143,7 @@ impl Check for C18 {
                 false
             }
             Ok(Err(e)) => {
-                if cfg == Cfg::Terminal {
+                if cfg == Cfg::Terminal && io.borrow().errors_returned.len() > before {
                     out.probes.hit("save_terminal_err_reported");
                 } else {
                     out.violation = Some(v("not-transparent", format!("{}:save/{}/result", fmt_name(fmt), cfg.name()), format!("save fails without a terminal fault: {}", e), Value::Null));
